@@ -13,6 +13,7 @@ import (
 
 	"github.com/mycoria/mycoria/frame"
 	"github.com/mycoria/mycoria/m"
+	"github.com/mycoria/mycoria/peering"
 	"github.com/mycoria/mycoria/router"
 )
 
@@ -400,6 +401,90 @@ func runC07(c *Ctx) error {
 			if si == 0 && k < 3 {
 				c.Sample(map[string]any{"ping": p.desc, "variant": variant, "changed": changed})
 			}
+		}
+	}
+	return c07ConcurrentReplay(c)
+}
+
+// c07ConcurrentReplay: a signed ping and its byte-exact replay reach two frame handler workers
+// of the router at the same moment (the router runs one worker per CPU; an attacker re-injects a
+// captured frame on a second link), while the router has no live session for the sender (known
+// from storage: first frame after a restart or after the idle session was cleaned).  Exactly one
+// of the two may take effect.  The router's storage is the rendezvous storage: a session lookup
+// that is serialised sees nothing, one that is not meets the other half-way.
+func c07ConcurrentReplay(c *Ctx) error {
+	for r, rounds := 0, c.Pick(3, 10); r < rounds; r++ {
+		e, err := newCtlEnv(c, false)
+		if err != nil {
+			return err
+		}
+		X, err := newGeoIdentity()
+		if err != nil {
+			return err
+		}
+		_ = e.R.st.AddRouter(&X.PublicAddress)
+		self := e.R.id.IP
+		// a route back to X (through P1), so that the answer can be sent
+		_, _ = e.R.ro.Table().AddRoute(m.RoutingTableEntry{DstIP: X.IP, NextHop: e.P1.id.IP, Source: m.RouteSourceGossip, Expires: time.Now().Add(time.Hour),
+			Path: m.SwitchPath{Hops: []m.SwitchHop{{Router: self, Delay: 5, ForwardLabel: 11}, {Router: e.P1.id.IP, Delay: 7, ForwardLabel: 3, ReturnLabel: 4}, {Router: X.IP, ReturnLabel: 9}}}})
+		spec := pingSpec{from: X, dst: self, msgType: frame.RouterPing, seqTime: nextCraftTime(), pingID: uint64(5000 + r)}
+		desc := "hello-request"
+		if r%2 == 0 {
+			k, _ := ecdh.X25519().GenerateKey(rand.Reader)
+			spec.pingType = "hello"
+			spec.body, _ = cbor.Marshal(&router.HelloPingRequest{KeyExchange: k.PublicKey().Bytes(), KeyExchangeType: "ECDH-X25519/BLAKE3", MTU: 1400})
+		} else {
+			desc = "pong-request"
+			spec.pingType = "pong"
+			spec.body, _ = cbor.Marshal(map[string]string{"msg": "ping"})
+		}
+		data, err := craftPing(spec)
+		if err != nil {
+			return err
+		}
+		recv := e.R.links[e.P1.id.IP]
+		copies := 2 + r%2
+		frames := make([]frame.Frame, 0, copies)
+		for k := 0; k < copies; k++ {
+			ps := e.R.builder.GetPooledSlice(peering.FrameOffset + len(data) + peering.FrameOverhead)
+			copy(ps[peering.FrameOffset:], data)
+			f, err := e.R.builder.ParseFrame(ps[peering.FrameOffset:peering.FrameOffset+len(data)], ps, peering.FrameOffset)
+			if err != nil {
+				return err
+			}
+			f.SetRecvLink(recv)
+			frames = append(frames, f)
+		}
+		start := make(chan struct{})
+		res := make(chan bool, copies)
+		e.R.rs.arm(true)
+		for _, f := range frames {
+			go func(f frame.Frame) {
+				<-start
+				var he, we error
+				pan, _ := recoverPanic(func() { he, we = e.R.ro.VerifHandleFrame(f) })
+				res <- !pan && he == nil && we == nil
+			}(f)
+		}
+		close(start)
+		took := 0
+		for k := 0; k < copies; k++ {
+			if <-res {
+				took++
+			}
+		}
+		e.R.rs.arm(false)
+		c.Eval()
+		c.Count("concurrent-replay:" + desc)
+		c.NonTrivial(fmt.Sprintf("concurrent-replay/%s/%d", desc, copies))
+		rep := map[string]any{"ping": desc, "copies": copies, "handled": took, "round": r}
+		if took > 1 {
+			c.Violate(fmt.Sprintf("a %s ping and its byte-exact replay, handled at the same moment by two workers while the router had no live session for the sender, were BOTH handled (%d of %d copies): the replay was not rejected", desc, took, copies), "concurrent-replay-accepted", rep)
+			break
+		}
+		if took == 0 {
+			c.Violate(fmt.Sprintf("a valid %s ping was rejected by every worker", desc), "concurrent-replay-lost", rep)
+			break
 		}
 	}
 	return nil
